@@ -49,6 +49,45 @@ pub fn ranges_of(set: &BTreeSet<u64>) -> Vec<(u64, u64)> {
     out
 }
 
+/// The harness's own reading of an Ack packet's bytes (type 4, then QUIC-style varints: sequence, last element of the newest
+/// range, its size, number of further ranges, then (gap, size) pairs going down), independent of the library's decoder:
+/// what a packet acknowledges is judged from its bytes, not from what the receiving side happens to make of them.
+pub fn wire_ack_ranges(bytes: &[u8]) -> Option<Vec<std::ops::Range<u64>>> {
+    fn varint(b: &[u8], pos: &mut usize) -> Option<u64> {
+        let first = *b.get(*pos)?;
+        let len = 1usize << (first >> 6);
+        let mut v = (first & 0x3F) as u64;
+        for k in 1..len {
+            v = (v << 8) | *b.get(*pos + k)? as u64;
+        }
+        *pos += len;
+        Some(v)
+    }
+    if bytes.first() != Some(&4) {
+        return None;
+    }
+    let mut pos = 1;
+    let _sequence = varint(bytes, &mut pos)?;
+    let last_elem = varint(bytes, &mut pos)?;
+    let size = varint(bytes, &mut pos)?;
+    let remaining = varint(bytes, &mut pos)?;
+    let mut start = last_elem.checked_sub(size)?;
+    let mut out = vec![start..last_elem.checked_add(1)?];
+    for _ in 0..remaining {
+        let gap = varint(bytes, &mut pos)?;
+        let size = varint(bytes, &mut pos)?;
+        let end = start.checked_sub(gap)?.checked_sub(1)?;
+        let st = end.checked_sub(1)?.checked_sub(size)?;
+        out.push(st..end);
+        start = st;
+    }
+    if pos != bytes.len() {
+        return None;
+    }
+    out.reverse();
+    Some(out)
+}
+
 impl WorldA {
     fn chan_index(&self, i: usize, d: usize, channel_id: u8) -> Option<usize> {
         self.conns[i].st[d].iter().position(|c| c.cfg.id == channel_id)
@@ -201,6 +240,12 @@ impl WorldA {
                 }
                 Packet::Ack { ack_ranges, .. } => {
                     obs.count("oracle.C16.ack_set");
+                    // (0) the library's decoder and an independent reading of the same bytes agree
+                    match wire_ack_ranges(p) {
+                        Some(w) if w == ack_ranges => {}
+                        Some(w) => obs.violate("C16", "ack-decoder-disagrees-with-wire", "emit", format!("{} ranges on the wire, {} decoded", w.len(), ack_ranges.len())),
+                        None => obs.violate("C16", "ack-decoder-disagrees-with-wire", "unreadable", format!("{:02x?}", &p[..p.len().min(24)])),
+                    }
                     // (1) the packet denotes exactly the recorded set
                     if ack_ranges != pend_before {
                         obs.violate("C16", "ack-differs-from-recorded-set", "emit", format!("packet {:?} recorded {:?}", ack_ranges, pend_before));
@@ -467,7 +512,9 @@ impl WorldA {
                 }
             }
             Packet::Ack { ack_ranges, .. } => {
-                // the receiver of this ack is the sender of the opposite direction
+                // the receiver of this ack is the sender of the opposite direction; what the packet acknowledges is read
+                // from its bytes by the harness's own decoder (a decoder that drops ranges must not hide them from the model)
+                let ack_ranges = wire_ack_ranges(bytes).unwrap_or(ack_ranges);
                 let od = 1 - d;
                 let mut newly: Vec<u64> = Vec::new();
                 for r in &ack_ranges {
